@@ -314,14 +314,14 @@ def native_cases(lib_fnv):
         ver = "None" if p["version"] is None else "(Some (%d, %d, %d)%%N)" % p["version"]
         return f"(mkpol {caps} {ck} {ver})"
 
-    def add(name, flags, route, p, declares, embedded=False, ck_ok=True, imp="sentry", alias=None, symbol=False, append_manf=False):
+    def add(name, flags, route, p, declares, embedded=False, ck_ok=True, imp="sentry", alias=None, symbol=False, append_manf=False, nested=False):
         fl = "[" + "; ".join('"%s"' % x for x in flags) + "]"
         man = "None" if p is None else f'(Some [("{p.get("key") or "sentry"}", {coq_pol(p, ck_ok)})])'
         r = {"source": "RSource", "aasm": "RAasm", "avbc-plain": "RAvbc", "avbc-bundled": "RAvbc"}[route]
         project, emb = (man, "None") if not embedded else ("None", man)
         path = "[" + "; ".join('"%s"' % seg for seg in imp.split(".")) + "]"
         q = f'({fl}, {r}, {project}, {emb}, {path}, mkfile [[1; 2]; [3]]%N (Some (0, 1, 0)%N))'
-        C.append({"name": name, "flags": flags, "route": route, "policy": p, "declares": declares, "query": q, "import": imp, "alias": alias, "symbol": symbol, "append_manf": append_manf})
+        C.append({"name": name, "flags": flags, "route": route, "policy": p, "declares": declares, "query": q, "import": imp, "alias": alias, "symbol": symbol, "append_manf": append_manf, "nested": nested})
 
     add("no-manifest", [], "source", None, None)
     add("caps-no-flags", [], "source", pol(["danger"]), None)
@@ -384,6 +384,12 @@ def native_cases(lib_fnv):
     add("avbc-empty-embedded-manifest-caps-denied", ["--deny-caps=danger"], "avbc-plain", pol(["danger"]), "empty-embedded-manifest-denied-capability", append_manf=True)
     add("avbc-empty-embedded-manifest-checksum-wrong", [], "avbc-plain", pol([], "0000000000000000"), "empty-embedded-manifest-different-checksum", ck_ok=False, append_manf=True)
     add("avbc-empty-embedded-manifest-allowed", ["--allow-caps=danger"], "avbc-plain", pol(["danger"]), None, append_manf=True)
+    # round 6: the native name smuggled through a SCRIPT module in a subdirectory that has no manifest of its own
+    # (main: `needs plugins.wrap`; plugins/wrap.aelys: `needs sentry`, re-exported): the project manifest still decides
+    add("nested-import-caps-denied", ["--deny-caps=danger"], "source", pol(["danger"]), "denied-capability", nested=True)
+    add("nested-import-std-cap-off", [], "source", pol(["fs"]), "std-capability-off", nested=True)
+    add("nested-import-checksum-wrong", [], "source", pol([], "0000000000000000"), "different-checksum", ck_ok=False, nested=True)
+    add("nested-import-allowed", ["--allow-caps=danger"], "source", pol(["danger"], ok_ck), None, nested=True)
     return C
 
 
@@ -417,7 +423,12 @@ def run_native(ctx, cli, lib, root, stats):
         sub = os.path.join(d, *imp.split(".")[:-1])
         os.makedirs(sub, exist_ok=True)
         shutil.copy(lib, os.path.join(sub, "libsentry.so"))
-        if c.get("symbol"):
+        if c.get("nested"):
+            os.makedirs(os.path.join(d, "plugins"), exist_ok=True)
+            shutil.move(os.path.join(sub, "libsentry.so"), os.path.join(d, "plugins", "libsentry.so"))
+            open(os.path.join(d, "plugins", "wrap.aelys"), "w").write("needs sentry\npub fn f() { return sentry.touch() }\n")
+            open(os.path.join(d, "main.aelys"), "w").write("needs plugins.wrap\nwrap.f()\n")
+        elif c.get("symbol"):
             open(os.path.join(d, "main.aelys"), "w").write(f"needs {imp}.touch\ntouch()\n")
         else:
             open(os.path.join(d, "main.aelys"), "w").write(f"needs {imp}" + (f" as {alias}" if alias else "") + f"\n{alias or 'sentry'}.touch()\n")
